@@ -21,7 +21,7 @@ func init() {
 	run.Register(&run.Property{
 		ID:    "C05",
 		Title: "WKT text is a faithful, re-parseable rendering of every geometry",
-		Rule: "cases = arbitrary homogeneous geometry trees over 7 types x 4 coordinate types with empty members at every position, nesting <= 4 and finite ordinates over all float64 classes (subnormal, 1e308, -0, 17-digit), plus the zero value of every Go geometry type; each case checks AsText/AppendWKT, the round trip, a strict OGC-grammar parse of the library's text, shortest numerals without exponents, 16 token-level re-spellings from an independent printer, trailing-token rejection and WKT-vs-WKB agreement. " +
+		Rule: "[added in rounds 9-11: closing points equal under == but differing in zero signs] cases = arbitrary homogeneous geometry trees over 7 types x 4 coordinate types with empty members at every position, nesting <= 4 and finite ordinates over all float64 classes (subnormal, 1e308, -0, 17-digit), plus the zero value of every Go geometry type; each case checks AsText/AppendWKT, the round trip, a strict OGC-grammar parse of the library's text, shortest numerals without exponents, 16 token-level re-spellings from an independent printer, trailing-token rejection and WKT-vs-WKB agreement. " +
 			"non-trivial = tree with >= 2 nodes, a non-XY coordinate type or an empty member; distinct by canonical WKB",
 		Assumptions:      []string{"bitwise tree comparison; the strict parser and the printer in verif/codec are written from the OGC WKT BNF; numerals are converted exactly with math/big"},
 		MinNontrivial:    500,
